@@ -5,7 +5,7 @@ import numpy as np
 
 RULE = ("(a) Hypothesis-generated lists of 1..3000 real ClosedTrade objects (profiles: mixed, all wins, all losses, with "
         "zero-PnL trades, single trade, long/short mix in any order; fee drawn; entry/exit fills in the trade's own order "
-        "tables) and generated daily-balance lists (2..400 positive samples incl. flat, monotone, crashing-on-day-one) fed "
+        "tables) and generated daily-balance lists (2..400 positive samples incl. flat, monotone, crashing-on-day-one; one in eight 1..8 years long) fed "
         "to jesse.services.metrics.trades inside a real session state; every reported key is recomputed by an independent "
         "reference from the trades' own pnl / fee / type / holding_period and from the equity samples (definitions in "
         "DESIGN.md C16). (b) multi-day sessions (1.5-4 simulated days, 1-2 routes, spot and futures, both simulators) "
@@ -290,6 +290,17 @@ def run_shard(acc, shard, nshards, seed, tier):
 
     @st.composite
     def equity(draw):
+        if draw(st.integers(0, 7)) == 0:
+            # several years of daily samples (conventional look-back windows are 1, 3, 5 years): PCG64 expansion of a drawn seed
+            import numpy as np
+            n = draw(st.sampled_from([366, 731, 1095, 1096, 1097, 1500, 1827, 2200, 3000]))
+            rng = np.random.Generator(np.random.PCG64(draw(st.integers(0, 2 ** 31))))
+            drift = draw(st.sampled_from([0.0, 0.0005, -0.0005]))
+            f = 1 + rng.normal(drift, 0.02, n - 1)
+            early = draw(st.booleans())
+            if early:
+                f[: n // 5] = 1 + rng.normal(-0.004, 0.03, n // 5)  # the deepest drawdown lies in the first fifth of the history
+            return [float(x) for x in np.concatenate(([10_000.0], 10_000.0 * np.cumprod(np.maximum(f, 0.5))))]
         n = draw(st.one_of(st.integers(2, 12), st.integers(2, 400)))
         style = draw(st.sampled_from(['walk', 'walk', 'flat', 'up', 'down', 'crash-first', 'single-dip']))
         e = [10_000.0]
@@ -320,7 +331,7 @@ def run_shard(acc, shard, nshards, seed, tier):
     def chk(c):
         vios, pnls = trades_case(c)
         nt = bool(pnls) and ((any(p > 0 for p in pnls) and any(p < 0 for p in pnls)) or c['profile'] in ('wins', 'losses', 'zero', 'single'))
-        cl = ['profile:' + c['profile'], 'equity-len:' + ('short' if len(c['equity']) < 13 else 'long')]
+        cl = ['profile:' + c['profile'], 'equity-len:' + ('short' if len(c['equity']) < 13 else ('long' if len(c['equity']) <= 400 else 'years'))]
         if pnls and any(p == 0 for p in pnls):
             cl.append('has-zero-pnl-trade')
         key = (c['fee'], [round(p, 6) for p in (pnls or [])][:50], len(pnls or []), c['equity'][:20])
